@@ -40,6 +40,7 @@ ContractHolds(kind, overwrite, mutates, hook) ==
 Clauses(e) ==
   << <<"CorrectionTotal", e.raised = 0>>,
      <<"InputUntouchedWithoutOverwrite", e.raised = 0 /\ e.overwrite = 0 => e.input_unchanged = 1>>,
+     <<"ResultOwnsItsPixelsWithoutOverwrite", e.raised = 0 /\ e.overwrite = 0 => e.independent = 1>>,
      <<"NewObjectWithoutOverwrite", e.raised = 0 /\ e.overwrite = 0 /\ e.kind # "array" => e.same_object = 0 /\ e.class_same = 1>>,
      <<"SameObjectWithOverwrite", e.raised = 0 /\ e.overwrite = 1 /\ e.kind # "array" => e.same_object = 1>>,
      <<"ResultIsCorrectionOfRawArray", e.raised = 0 => e.result_is_F = 1>>,
